@@ -28,11 +28,12 @@ class Interposer:
   fault: 'crash' raises SimCrash, 'ioerror' raises SimIOError (the code may handle it).
   """
 
-  def __init__(self, root, snapshot, log, crash_at=None, partial=None, fault='crash', use_tf=True, name_of=None):
+  def __init__(self, root, snapshot, log, crash_at=None, partial=None, fault='crash', use_tf=True, name_of=None, crash_pred=None):
     self.root = os.path.abspath(root)
     self.snapshot = snapshot
     self.log = log
     self.crash_at = crash_at
+    self.crash_pred = crash_pred   # optional predicate(kind, fields) -> False | True | ('partial', fraction)
     self.partial = partial
     self.fault = fault
     self.n_effects = 0
@@ -63,6 +64,9 @@ class Interposer:
     self.effect_kinds.append(kind)
     if self.crash_at is not None and k == self.crash_at and not (kind == 'Write' and self.partial):
       self._raise()
+    if self.crash_pred is not None and kind != 'Write':
+      if self.crash_pred(kind, fields):
+        self._raise()
     return k
 
   def after(self, kind, **fields):
@@ -108,7 +112,7 @@ class Interposer:
     def two(realfn, kind):
       def fn(src, dst, *a, **kw):
         if ip.watched(src) or ip.watched(dst):
-          ip.effect(kind)
+          ip.effect(kind, src=ip.name_of(src), dst=ip.name_of(dst))
           r = realfn(src, dst, *a, **kw)
           ip.after('Rename', src=ip.name_of(src), dst=ip.name_of(dst))
           return r
@@ -118,7 +122,7 @@ class Interposer:
     def one(realfn, kind):
       def fn(p, *a, **kw):
         if ip.watched(p):
-          ip.effect(kind)
+          ip.effect(kind, name=ip.name_of(p))
           r = realfn(p, *a, **kw)
           ip.after('Remove', name=ip.name_of(p))
           return r
@@ -163,7 +167,7 @@ class Interposer:
           self._closed = True
           if self._writing and not ip.crashing:
             try:
-              ip.effect('Close')
+              ip.effect('Close', name=ip.name_of(self._path))
             except BaseException:
               self._real.close()  # the OS closes the descriptor of a dead process
               raise
@@ -201,8 +205,17 @@ def _do_write(ip, real, path, data):
   k = ip.n_effects
   ip.n_effects += 1
   ip.effect_kinds.append('Write')
-  if ip.crash_at is not None and k == ip.crash_at:
-    if ip.partial:
+  hit = ip.crash_at is not None and k == ip.crash_at
+  part = ip.partial
+  if ip.crash_pred is not None and not hit:
+    verdict = ip.crash_pred('Write', {'name': ip.name_of(path)})
+    if verdict:
+      hit = True
+      part = verdict[1] if isinstance(verdict, tuple) else None
+  if hit:
+    if part:
+      ip.partial = part
+    if part:
       n = len(data)
       m = n - 1 if ip.partial == 'last' else int(n * ip.partial)
       m = max(0, min(n - 1, m))
@@ -238,7 +251,7 @@ class _FileProxy:
     self._closed = True
     if self._writing and not self._ip.crashing:
       try:
-        self._ip.effect('Close')
+        self._ip.effect('Close', name=self._ip.name_of(self._path))
       except BaseException:
         self._real.close()
         raise
